@@ -113,6 +113,16 @@ def build_shim():
     return so
 
 def run_driver(exe, casefile, nprocs=1, timeout=600, extra_env=None, args=()):
+    """one run; a timeout on a heavily loaded machine (1-minute load above 3/4 of the cores: other checks running beside this
+    one) is retried once with three times the limit before it is believed - a genuine hang hangs again"""
+    rc, out, err = _run_driver_once(exe, casefile, nprocs, timeout, extra_env, args)
+    if rc == 124:
+        try: busy = os.getloadavg()[0] > 0.75 * (os.cpu_count() or 16)
+        except Exception: busy = False
+        if busy: rc, out, err = _run_driver_once(exe, casefile, nprocs, 3 * timeout, extra_env, args)
+    return rc, out, err
+
+def _run_driver_once(exe, casefile, nprocs=1, timeout=600, extra_env=None, args=()):
     e = env()
     if extra_env: e.update(extra_env)
     if nprocs and nprocs > 0:
